@@ -4,7 +4,8 @@
    so the theorems hold for EVERY pattern of failing / succeeding insertions and submissions.
    Transactions are identified by harness serial numbers (byte identity: C15/C20). *)
 From Coq Require Import ZArith List Bool.
-From V Require Import Model.NodeModel Proofs.NodeProofs.
+From V Require Import Model.ZMap Model.Quorum Model.HgImpl Model.NodeModel Proofs.NodeProofs
+  Proofs.AdmissionProofs Proofs.BlockInv Proofs.OrderProofs Proofs.TidyC05.
 Import ListNotations.
 Open Scope Z_scope.
 
@@ -33,16 +34,135 @@ Theorem C05_failure_keeps_pending : forall p dtx ditx,
 Proof. exact failed_self_event_keeps_pool. Qed.
 Print Assumptions C05_failure_keeps_pending.
 
-(* FULL STATEMENT of the commit side, kept visible: every transaction of a committed block is the
-   payload of an admitted event (C07) committed exactly once (C04_once); with C05_exactly_one_event
-   no submitted transaction is committed twice.  The oracle evaluates it on every history. *)
-Definition C05_commit_once_statement : Prop :=
-  forall (blocks : list (list Z)) (events : list (list Z)),
-    NoDup (concat events) -> (exists sel, concat blocks = concat sel /\ NoDup sel /\ incl sel events) ->
-    NoDup (concat blocks).
+(** The commit side, on the hashgraph model (HgImpl, every reachable state of every sequence of
+    insertion attempts and ProcessSigPool calls, [hrun]; hypotheses as in C04: identifiers
+    determine events, numbered from 0).
+    [committed_txs st]    = concatenation of the delivered blocks' transaction lists (commit order);
+    [committed_events st] = concatenation of the delivered blocks' frame events (commit order);
+    [etxs st x]           = payload of the stored event x. *)
+
+(* the committed transaction stream is exactly the concatenation, in commit order, of the payloads
+   of the committed events (whole events, nothing else) *)
+Theorem C05_committed_stream : forall all self_ genesis oracle_ ops,
+  ids_determine all -> Forall (hop_ok all) ops ->
+  let st := hrun (init_hg self_ genesis oracle_) ops in
+  committed_txs st = flat_map (etxs st) (committed_events st).
+Proof. exact (fun all s g o ops ID H => committed_stream all _ (hrun_ginv all s g o ops ID H)). Qed.
+Print Assumptions C05_committed_stream.
+
+(* no event is committed twice: not in two blocks, not twice in one *)
+Theorem C05_no_event_committed_twice : forall all self_ genesis oracle_ ops,
+  ids_determine all -> Forall (hop_ok all) ops ->
+  NoDup (committed_events (hrun (init_hg self_ genesis oracle_) ops)).
+Proof. exact committed_events_nodup. Qed.
+Print Assumptions C05_no_event_committed_twice.
+
+(* hence, if the admitted events have duplicate-free and pairwise disjoint payloads, no
+   transaction is committed twice (neither in two blocks nor twice in one) *)
+Theorem C05_no_transaction_committed_twice : forall all self_ genesis oracle_ ops,
+  ids_determine all -> Forall (hop_ok all) ops ->
+  payloads_disjoint (hrun (init_hg self_ genesis oracle_) ops) ->
+  NoDup (committed_txs (hrun (init_hg self_ genesis oracle_) ops)).
+Proof. exact no_transaction_committed_twice. Qed.
+Print Assumptions C05_no_transaction_committed_twice.
+
+(* the same with the hypothesis on the attempted events (what the senders built) *)
+Theorem C05_no_transaction_committed_twice_attempts : forall all self_ genesis oracle_ ops,
+  ids_determine all -> Forall (hop_ok all) ops ->
+  (forall e, In e all -> NoDup (e_txs e)) ->
+  (forall e e' t, In e all -> In e' all -> In t (e_txs e) -> In t (e_txs e') -> e = e') ->
+  NoDup (committed_txs (hrun (init_hg self_ genesis oracle_) ops)).
+Proof. exact no_transaction_committed_twice_attempts. Qed.
+Print Assumptions C05_no_transaction_committed_twice_attempts.
+
+(* every committed transaction is in the payload of a committed event, which is an admitted
+   event: stored under its identifier, one of the attempted events, with a valid signature *)
+Theorem C05_committed_was_submitted : forall all self_ genesis oracle_ ops t,
+  ids_determine all -> Forall (hop_ok all) ops ->
+  let st := hrun (init_hg self_ genesis oracle_) ops in
+  In t (committed_txs st) ->
+  exists x ex, In x (committed_events st) /\ get_event st x = Some ex /\ In t (e_txs (ev_e ex)) /\
+               In (ev_e ex) all /\ e_id (ev_e ex) = x /\ e_sigok (ev_e ex) = true.
+Proof. exact committed_was_submitted. Qed.
+Print Assumptions C05_committed_was_submitted.
+
+(** The link between the two models.  [O c] is the life (any [pop] sequence) of the node with key
+    c, [slot e] says which self-event of its creator e is.  If every attempted event carries the
+    payload its creator's addSelfEvent captured for that self-event, different events of one
+    creator are different self-events, and the transactions accepted by the nodes are pairwise
+    distinct within and across nodes, then the attempted events have duplicate-free, pairwise
+    disjoint payloads (this is C05_exactly_one_event, node by node) ... *)
+Theorem C05_pools_give_disjoint_payloads : forall all creators (O : Z -> list pop) slot,
+  from_pools all creators (fun c => prun (O c)) slot ->
+  NoDup creators -> NoDup (flat_map (fun c => p_submitted (prun (O c))) creators) ->
+  (forall e, In e all -> NoDup (e_txs e)) /\
+  (forall e e' t, In e all -> In e' all -> In t (e_txs e) -> In t (e_txs e') -> e = e').
+Proof. exact pools_payloads_disjoint. Qed.
+Print Assumptions C05_pools_give_disjoint_payloads.
+
+(* ... and therefore no submitted transaction is committed twice, by any node, whatever the
+   gossip: end to end over pools + hashgraph *)
+Theorem C05_submitted_committed_at_most_once : forall all creators O slot self_ genesis oracle_ ops,
+  ids_determine all -> Forall (hop_ok all) ops ->
+  from_pools all creators (fun c => prun (O c)) slot ->
+  NoDup creators -> NoDup (flat_map (fun c => p_submitted (prun (O c))) creators) ->
+  NoDup (committed_txs (hrun (init_hg self_ genesis oracle_) ops)).
+Proof. exact no_transaction_committed_twice_pools. Qed.
+Print Assumptions C05_submitted_committed_at_most_once.
+
+(* the combinatorial core, as it used to be kept (C05_commit_once_statement): blocks made of
+   distinct event payloads chosen among pairwise disjoint, duplicate-free payloads carry no
+   transaction twice *)
+Theorem C05_commit_once : forall (blocks : list (list Z)) (events : list (list Z)),
+  NoDup (concat events) -> (exists sel, concat blocks = concat sel /\ NoDup sel /\ incl sel events) ->
+  NoDup (concat blocks).
+Proof. exact commit_once_lists. Qed.
+Print Assumptions C05_commit_once.
+
+(* NOT PROVED (asserted nowhere): that the pool model and the hashgraph model are driven by the
+   same node -- [from_pools] is a hypothesis relating the two models' inputs, discharged on every
+   explored history by the check's oracle (each event's payload is compared with what the
+   creating core captured), not by a proof about a combined node model. *)
 
 Example C05_example :
   let p := prun [PSubmit [1; 2]; PSelfEvent true false [] []; PSubmit [3]; PSelfEvent true true [4] [];
                  PSelfEvent false true [] []; PSelfEvent true true [] []] in
   p_created p = [([1; 2; 3], []); ([4], [])] /\ p_txs p = [] /\ p_submitted p = [1; 2; 3; 4].
 Proof. vm_compute. repeat split. Qed.
+
+(* non-vacuity of the commit side: two validators gossiping in ping-pong, event k carries
+   transaction k, created by node (k mod 2) as its self-event number k/2 out of a pool fed with
+   PSubmit [k].  All hypotheses hold; three blocks are delivered. *)
+Definition c05_g : peerset := [mkPeer 100 0; mkPeer 101 1].
+Definition c05_ev (k : Z) : event :=
+  mkEvent k (k mod 2) (k / 2) (if k <? 2 then -1 else k - 2) (if k =? 0 then -1 else k - 1) k
+          (Z.even (k / 3)) (100 - k) [k] [] [] true.
+Definition c05_all : list event := map c05_ev [0; 1; 2; 3; 4; 5; 6; 7; 8; 9; 10; 11].
+Definition c05_ops : list hop := map HInsert c05_all ++ [HSigPool].
+Definition c05_st : hg := hrun (init_hg 0 c05_g [7; 8; 9; 10; 11; 12]) c05_ops.
+Definition c05_O (c : Z) : list pop :=
+  flat_map (fun j => [PSubmit [2 * j + c]; PSelfEvent true true [] []]) [0; 1; 2; 3; 4; 5].
+Definition c05_slot (e : event) : nat := Z.to_nat (e_index e).
+
+Example C05_example_commit :
+  ids_determine c05_all /\ Forall (hop_ok c05_all) c05_ops /\
+  from_pools c05_all [0; 1] (fun c => prun (c05_O c)) c05_slot /\
+  NoDup (flat_map (fun c => p_submitted (prun (c05_O c))) [0; 1]) /\
+  failed c05_st = false /\
+  committed_events c05_st = [0; 1; 2; 3; 4; 5] /\
+  committed_txs c05_st = [0; 1; 2; 3; 4; 5] /\
+  map b_txs (delivered c05_st) = [[0; 1]; [2; 3]; [4; 5]].
+Proof.
+  split; [apply ids_determine_distinct; vm_compute; reflexivity|].
+  split; [apply Forall_app; split; [apply hop_ok_inserts; vm_compute; reflexivity|repeat constructor]|].
+  split.
+  { split.
+    - intros e He. repeat (destruct He as [<-|He]; [vm_compute; split; [tauto|reflexivity]|]). destruct He.
+    - intros e e' He He' Hc Hs.
+      assert (E : e_id e = e_id e').
+      { repeat (destruct He as [<-|He]; [repeat (destruct He' as [<-|He']; [try reflexivity; vm_compute in Hc, Hs; try discriminate Hc; discriminate Hs|]); destruct He'|]). destruct He. }
+      assert (ID : ids_determine c05_all) by (apply ids_determine_distinct; vm_compute; reflexivity).
+      apply ID; assumption. }
+  split; [apply distinctb_NoDup; vm_compute; reflexivity|].
+  vm_compute. repeat split; reflexivity.
+Qed.
